@@ -73,6 +73,11 @@ def enum_base(t):
 IGNORED_PARAMS = {("cg_conn_read", "donor_datatype"), ("cg_conn_write", "donor_datatype")}
 
 
+CGIO_DATA = {"cgio_read_data_type", "cgio_write_data", "cgio_write_data_type"}
+CGIO_DATA_VALID = {"s_start": "D12_ONES", "s_end": "D12_DIMS", "s_stride": "D12_ONES", "m_num_dims": "g_n2nd", "m_dims": "D12_DIMS",
+                   "m_start": "D12_ONES", "m_end": "D12_DIMS", "m_stride": "D12_ONES", "m_data_type": "g_n2type"}
+
+
 def arg_for12(fname, i, pn, pt, writer):
     """C07.arg_for with the invalid classes C12 asks for: -> (valid expression, kind, [(class, expression, must fail)])"""
     v, kind, inv = C07.arg_for(fname, i, pn, pt, writer)
@@ -110,7 +115,13 @@ def arg_for12(fname, i, pn, pt, writer):
         # the low-level layer: handles, names and data types are validated; 0 dimensions are legal (an MT node), and the
         # dimension utilities (cgio_check_dimensions, cgio_copy_dimensions, cgio_compute_data_size) return values, not statuses
         if kind == "dimcount":
-            inv = [x for x in inv if x[0] == "ndim-13"] if re.search(r"set_dimensions|new_node", fname) else []
+            # the rank of the MEMORY array of the data entry points must be 1 .. 12 (13, 0, -1 are refused); the rank of a node
+            # may be 0 (an MT node): only 13 is invalid for cgio_set_dimensions / cgio_new_node
+            inv = list(inv) if fname in CGIO_DATA else [x for x in inv if x[0] == "ndim-13"] if re.search(r"set_dimensions|new_node", fname) else []
+        if fname in CGIO_DATA and pn in CGIO_DATA_VALID:
+            # valid arguments read from the node itself (probe12_cgio): the whole data of g_node2 in its own type and shape; the
+            # index arrays have EXACTLY 12 entries (CGIO_MAX_DIMENSIONS), so that an access at [12] is seen by the sanitizers
+            v = CGIO_DATA_VALID[pn]
         if fname in ("cgio_compute_data_size", "cgio_check_dimensions", "cgio_copy_dimensions"):
             inv = []
     return v, kind, inv
@@ -249,7 +260,8 @@ def gen_stubs(d, path):
                                  "/* defined in c12_drv.c (facts about zone (1,1) of the open file) */",
                                  "static cgsize_t g_vd[3], g_cd[3], g_nv, g_nc, g_s1s, g_s1e, g_psz, g_nd2, BIGP[3 * 4096]; static int g_idim, g_cdim;",
                                  "static const cgsize_t *DIMV(int cell, int d0); static const cgsize_t *RNGV(int cell, int dlo, int dhi); "
-                                 "static const cgsize_t *VEC1(cgsize_t a); static const cgsize_t *RV(int kind, int which);"], [], {}
+                                 "static const cgsize_t *VEC1(cgsize_t a); static const cgsize_t *RV(int kind, int which);",
+                                 "static cgsize_t D12_ONES[12], D12_DIMS[12]; static int g_n2nd; static char g_n2type[40];"], [], {}
     for a in api:
         name = a["name"]
         pr = protos[name]
@@ -397,6 +409,11 @@ def parse_cases(lines):
     """-> list of dicts, one per case (C ... S ... R ... E ...)"""
     cases, cur = [], None
     for l in lines:
+        if not l.startswith(("C ", "S ", "D ", "R ", "E ")):
+            # the library may print a diagnostic of its own in front of the line without a newline (ADFH_CHECK_HID: "#### BAD ID [..] ")
+            m = re.search(r"\b([SD] \S+ v=\d+ .*)$", l)
+            if m:
+                l = m.group(1)
         if l.startswith("C "):
             t = l.split()
             cur = {"name": t[1], "v": int(t[2][2:]), "stderr": []}
@@ -587,9 +604,11 @@ def select_cases(entries, rng, tier, frac_entries=1.0, all_classes=True, only_va
     for i, e in enumerate(entries):
         isb = [var["cls"].startswith("bound") for var in e["variants"]]
         if bounds_only:
-            if any(isb):
+            if any(isb) and not e["fn"].startswith("cgio_"):
                 out += [(i, 0)] + [(i, v) for v in range(1, len(isb)) if isb[v]]
-            elif SELECTORS.search(e["fn"]):
+            elif SELECTORS.search(e["fn"]) or e["fn"].startswith("cgio_"):
+                # also every cgio_* entry point with every class: a refused low-level call must leave the node (type, shape, DATA:
+                # the tree digest reads them back) as it was on BOTH back ends, and the sampled HDF5 passes may skip it
                 out += [(i, v) for v in range(len(isb)) if e["variants"][v]["must"] != 0 or v == 0]
             continue
         if frac_entries < 1.0 and rng.random() > frac_entries:
